@@ -55,6 +55,7 @@ import (
 	"path/filepath"
 	"slices"
 	"strings"
+	"sync"
 	"sync/atomic"
 	_ "unsafe"
 
@@ -95,6 +96,8 @@ type interpreter struct {
 	skipInit           map[string]bool        // packages whose init is not run
 	callDepth          int
 	cfg                *Config
+	shared             map[*ssa.Global]*value // read-only globals of table-only packages, initialised once per program
+	bootstrap          bool
 	inStub             map[string]bool
 	top                *frame
 	failStack          string
@@ -116,7 +119,8 @@ type frame struct {
 	caller           *frame
 	fn               *ssa.Function
 	block, prevBlock *ssa.BasicBlock
-	env              map[ssa.Value]value // dynamic values of SSA variables
+	idx              *envIndex // SSA value -> slot
+	vals             []value   // dynamic values of SSA variables
 	locals           []value
 	defers           *deferred
 	result           value
@@ -141,12 +145,15 @@ func (fr *frame) get(key ssa.Value) value {
 		if r, ok := fr.i.globals[key]; ok {
 			return r
 		}
+		if r, ok := fr.i.shared[key]; ok {
+			return r
+		}
 		// globals are allocated on first use
 		cell := zero(mustDeref(key.Type()))
 		fr.i.globals[key] = &cell
 		return &cell
 	}
-	if r, ok := fr.env[key]; ok {
+	if r, ok := fr.lookup(key); ok {
 		return r
 	}
 	panic(fmt.Sprintf("get: no value for %T: %v", key, key.Name()))
@@ -215,35 +222,35 @@ func visitInstr(fr *frame, instr ssa.Instruction) continuation {
 		// no-op
 
 	case *ssa.UnOp:
-		fr.env[instr] = unop(fr, instr, fr.get(instr.X))
+		fr.set(instr, unop(fr, instr, fr.get(instr.X)))
 
 	case *ssa.BinOp:
-		fr.env[instr] = binop(fr.i, instr.Op, instr.X.Type(), fr.get(instr.X), fr.get(instr.Y))
+		fr.set(instr, binop(fr.i, instr.Op, instr.X.Type(), fr.get(instr.X), fr.get(instr.Y)))
 
 	case *ssa.Call:
 		fn, args := prepareCall(fr, &instr.Call)
-		fr.env[instr] = call(fr.i, fr, instr.Pos(), fn, args)
+		fr.set(instr, call(fr.i, fr, instr.Pos(), fn, args))
 
 	case *ssa.ChangeInterface:
-		fr.env[instr] = fr.get(instr.X)
+		fr.set(instr, fr.get(instr.X))
 
 	case *ssa.ChangeType:
-		fr.env[instr] = fr.get(instr.X) // (can't fail)
+		fr.set(instr, fr.get(instr.X)) // (can't fail)
 
 	case *ssa.Convert:
-		fr.env[instr] = conv(fr.i, instr.Type(), instr.X.Type(), fr.get(instr.X))
+		fr.set(instr, conv(fr.i, instr.Type(), instr.X.Type(), fr.get(instr.X)))
 
 	case *ssa.SliceToArrayPointer:
-		fr.env[instr] = sliceToArrayPointer(instr.Type(), instr.X.Type(), fr.get(instr.X))
+		fr.set(instr, sliceToArrayPointer(instr.Type(), instr.X.Type(), fr.get(instr.X)))
 
 	case *ssa.MakeInterface:
-		fr.env[instr] = iface{t: instr.X.Type(), v: fr.get(instr.X)}
+		fr.set(instr, iface{t: instr.X.Type(), v: fr.get(instr.X)})
 
 	case *ssa.Extract:
-		fr.env[instr] = fr.get(instr.Tuple).(tuple)[instr.Index]
+		fr.set(instr, fr.get(instr.Tuple).(tuple)[instr.Index])
 
 	case *ssa.Slice:
-		fr.env[instr] = slice(fr.i, fr.get(instr.X), fr.get(instr.Low), fr.get(instr.High), fr.get(instr.Max))
+		fr.set(instr, slice(fr.i, fr.get(instr.X), fr.get(instr.Low), fr.get(instr.High), fr.get(instr.Max)))
 
 	case *ssa.Return:
 		switch len(instr.Results) {
@@ -322,17 +329,17 @@ func visitInstr(fr *frame, instr ssa.Instruction) continuation {
 		atomic.AddInt32(&fr.i.goroutines, -1)
 
 	case *ssa.MakeChan:
-		fr.env[instr] = make(chan value, fr.i.concInt(fr.get(instr.Size)))
+		fr.set(instr, make(chan value, fr.i.concInt(fr.get(instr.Size))))
 
 	case *ssa.Alloc:
 		var addr *value
 		if instr.Heap {
 			// new
 			addr = new(value)
-			fr.env[instr] = addr
+			fr.set(instr, addr)
 		} else {
 			// local
-			addr = fr.env[instr].(*value)
+			addr = fr.mustLookup(instr).(*value)
 		}
 		fr.i.writeCell(addr, zero(mustDeref(instr.Type())))
 
@@ -342,7 +349,7 @@ func visitInstr(fr *frame, instr ssa.Instruction) continuation {
 		for i := range slice {
 			slice[i] = zero(tElt)
 		}
-		fr.env[instr] = slice[:fr.i.concInt(fr.get(instr.Len))]
+		fr.set(instr, slice[:fr.i.concInt(fr.get(instr.Len))])
 
 	case *ssa.MakeMap:
 		var reserve int64
@@ -352,23 +359,23 @@ func visitInstr(fr *frame, instr ssa.Instruction) continuation {
 		if !fitsInt(reserve, fr.i.sizes) {
 			panic(fmt.Sprintf("ssa.MakeMap.Reserve value %d does not fit in int", reserve))
 		}
-		fr.env[instr] = makeMap(instr.Type().Underlying().(*types.Map).Key(), reserve)
+		fr.set(instr, makeMap(instr.Type().Underlying().(*types.Map).Key(), reserve))
 
 	case *ssa.Range:
-		fr.env[instr] = rangeIter(fr, fr.get(instr.X))
+		fr.set(instr, rangeIter(fr, fr.get(instr.X)))
 
 	case *ssa.Next:
-		fr.env[instr] = fr.get(instr.Iter).(iter).next()
+		fr.set(instr, fr.get(instr.Iter).(iter).next())
 
 	case *ssa.FieldAddr:
 		p := fr.ptr(fr.get(instr.X))
 		if p == nil {
 			panic(runtimeError("invalid memory address or nil pointer dereference"))
 		}
-		fr.env[instr] = &(*p).(structure)[instr.Field]
+		fr.set(instr, &(*p).(structure)[instr.Field])
 
 	case *ssa.Field:
-		fr.env[instr] = fr.get(instr.X).(structure)[instr.Field]
+		fr.set(instr, fr.get(instr.X).(structure)[instr.Field])
 
 	case *ssa.IndexAddr:
 		x := fr.get(instr.X)
@@ -383,14 +390,14 @@ func visitInstr(fr *frame, instr ssa.Instruction) continuation {
 			default:
 				panic(fmt.Sprintf("unexpected x type in IndexAddr: %T", x))
 			}
-			fr.env[instr] = symPtr{base, sidx}
+			fr.set(instr, symPtr{base, sidx})
 			break
 		}
 		switch x := x.(type) {
 		case []value:
-			fr.env[instr] = &x[asInt64(idx)]
+			fr.set(instr, &x[asInt64(idx)])
 		case *value: // *array
-			fr.env[instr] = &(*x).(array)[asInt64(idx)]
+			fr.set(instr, &(*x).(array)[asInt64(idx)])
 		default:
 			panic(fmt.Sprintf("unexpected x type in IndexAddr: %T", x))
 		}
@@ -402,9 +409,9 @@ func visitInstr(fr *frame, instr ssa.Instruction) continuation {
 		if sidx, ok := idx.(sym); ok {
 			switch x := x.(type) {
 			case array:
-				fr.env[instr] = fr.i.indexRead(x, sidx)
+				fr.set(instr, fr.i.indexRead(x, sidx))
 			case string, symstr:
-				fr.env[instr] = fr.i.indexRead(strBytes(x), sidx)
+				fr.set(instr, fr.i.indexRead(strBytes(x), sidx))
 			default:
 				panic(fmt.Sprintf("unexpected x type in Index: %T", x))
 			}
@@ -412,17 +419,17 @@ func visitInstr(fr *frame, instr ssa.Instruction) continuation {
 		}
 		switch x := x.(type) {
 		case array:
-			fr.env[instr] = x[asInt64(idx)]
+			fr.set(instr, x[asInt64(idx)])
 		case string:
-			fr.env[instr] = x[asInt64(idx)]
+			fr.set(instr, x[asInt64(idx)])
 		case symstr:
-			fr.env[instr] = x.b[asInt64(idx)]
+			fr.set(instr, x.b[asInt64(idx)])
 		default:
 			panic(fmt.Sprintf("unexpected x type in Index: %T", x))
 		}
 
 	case *ssa.Lookup:
-		fr.env[instr] = lookup(fr.i, instr, fr.get(instr.X), fr.get(instr.Index))
+		fr.set(instr, lookup(fr.i, instr, fr.get(instr.X), fr.get(instr.Index)))
 
 	case *ssa.MapUpdate:
 		m := fr.get(instr.Map)
@@ -437,14 +444,14 @@ func visitInstr(fr *frame, instr ssa.Instruction) continuation {
 		}
 
 	case *ssa.TypeAssert:
-		fr.env[instr] = typeAssert(instr, fr.get(instr.X).(iface))
+		fr.set(instr, typeAssert(instr, fr.get(instr.X).(iface)))
 
 	case *ssa.MakeClosure:
 		var bindings []value
 		for _, binding := range instr.Bindings {
 			bindings = append(bindings, fr.get(binding))
 		}
-		fr.env[instr] = &closure{instr.Fn.(*ssa.Function), bindings}
+		fr.set(instr, &closure{instr.Fn.(*ssa.Function), bindings})
 
 	case *ssa.Phi:
 		log.Fatal("unreachable") // phis are processed at block entry
@@ -490,7 +497,7 @@ func visitInstr(fr *frame, instr ssa.Instruction) continuation {
 				r = append(r, v)
 			}
 		}
-		fr.env[instr] = r
+		fr.set(instr, r)
 
 	default:
 		panic(fmt.Sprintf("unexpected instruction: %T", instr))
@@ -602,6 +609,23 @@ func callSSA(i *interpreter, caller *frame, callpos token.Pos, fn *ssa.Function,
 		if fn.Blocks == nil {
 			unmodelled("no code for function: %s", fi.name)
 		}
+		if i.bootstrap && fn.Name() == "init" && fn.Pkg != nil && fn.Synthetic != "" && !sharedInitPkgs[fn.Pkg.Pkg.Path()] {
+			return nil
+		}
+		if fn.Name() == "init" && fn.Pkg != nil && fn.Synthetic != "" {
+			// fast path: package already initialised
+			if g := fn.Pkg.Var("init$guard"); g != nil {
+				if c, ok := i.globals[g]; ok {
+					if b, _ := (*c).(bool); b {
+						return nil
+					}
+				} else if c, ok := i.shared[g]; ok {
+					if b, _ := (*c).(bool); b {
+						return nil
+					}
+				}
+			}
+		}
 		if fn.Name() == "init" && fn.Pkg != nil && fn.Synthetic != "" && skipInitOf(i.cfg, fn.Pkg.Pkg.Path()) {
 			// the package's own initialisation is skipped, its imports' is not
 			path := fn.Pkg.Pkg.Path()
@@ -641,18 +665,19 @@ func callSSA(i *interpreter, caller *frame, callpos token.Pos, fn *ssa.Function,
 		panic("interp requires ssa.BuilderMode to include InstantiateGenerics to execute generics")
 	}
 
-	fr.env = make(map[ssa.Value]value)
+	fr.idx = envIndexOf(fn)
+	fr.vals = make([]value, fr.idx.n)
 	fr.block = fn.Blocks[0]
 	fr.locals = make([]value, len(fn.Locals))
 	for i, l := range fn.Locals {
-		fr.locals[i] = zero(mustDeref(l.Type()))
-		fr.env[l] = &fr.locals[i]
+		// the Alloc instruction zeroes the cell when it executes
+		fr.set(l, &fr.locals[i])
 	}
 	for i, p := range fn.Params {
-		fr.env[p] = args[i]
+		fr.set(p, args[i])
 	}
 	for i, fv := range fn.FreeVars {
-		fr.env[fv] = env[i]
+		fr.set(fv, env[i])
 	}
 	for fr.block != nil {
 		runFrame(fr)
@@ -759,7 +784,7 @@ func executePhis(fr *frame) []ssa.Instruction {
 			fr.phitemps = append(fr.phitemps, fr.get(phi.Edges[predIndex]))
 		}
 		for i, phi := range phis {
-			fr.env[phi.(*ssa.Phi)] = fr.phitemps[i]
+			fr.set(phi.(*ssa.Phi), fr.phitemps[i])
 		}
 	}
 	return nonPhis
@@ -811,4 +836,39 @@ func (i *interpreter) stackString() string {
 		n++
 	}
 	return sb.String()
+}
+
+var (
+	localsProf   map[string]int64
+	localsProfMu sync.Mutex
+)
+
+func i_sizeof(t types.Type) int64 {
+	defer func() { recover() }()
+	return (&types.StdSizes{WordSize: 8, MaxAlign: 8}).Sizeof(t)
+}
+
+func init() {
+	if os.Getenv("GOSX_PROF_LOCALS") != "" {
+		localsProf = map[string]int64{}
+	}
+}
+
+// DumpLocalsProf prints the biggest local-variable allocators.
+func DumpLocalsProf() {
+	if localsProf == nil {
+		return
+	}
+	type kv struct {
+		k string
+		v int64
+	}
+	var l []kv
+	for k, v := range localsProf {
+		l = append(l, kv{k, v})
+	}
+	slices.SortFunc(l, func(a, b kv) int { return int(b.v - a.v) })
+	for i := 0; i < len(l) && i < 15; i++ {
+		fmt.Fprintf(os.Stderr, "locals %12d %s\n", l[i].v, l[i].k)
+	}
 }
